@@ -33,6 +33,7 @@ structure ROpts where
   multi : Nat := 0             -- 0 = off
   infoPrefix : Str := [32, 60, 32]
   inputless : Bool := false    -- the input section (prompt and info line) is hidden
+  headerFirst : Bool := false  -- --header-first: the --header lines are next to the edge, the input section after them
 
 def maxMulti : Nat := 2147483647
 
@@ -162,13 +163,25 @@ structure View where
 /-- Number of list rows (`maxItems`). -/
 def maxItems (o : ROpts) : Nat := o.H - (promptLines o + o.header0.length + o.headerItems.length)
 
-/-- The logical lines, counted from the prompt: prompt, info, --header, --header-lines, list. -/
-def logical (o : ROpts) (v : View) : List Str :=
-  let hdr0 := o.header0.map (headerRow o)
-  let hdr0 := if o.layout = .reverse then hdr0 else hdr0.reverse
+/-- The rows of the input section: the prompt row and, unless it is inline or hidden without
+    separator, the info row; none while the input section is hidden. -/
+def inputRows (o : ROpts) (v : View) : List Str :=
   (if o.inputless then [] else [promptRow o v.input v.found v.total v.nsel]) ++
-  (if promptLines o = 2 then [infoRow o v.found v.total v.nsel] else []) ++
-  hdr0
+  (if promptLines o = 2 then [infoRow o v.found v.total v.nsel] else [])
+
+/-- The rows of --header, in the order they are counted from the prompt edge. -/
+def hdr0Rows (o : ROpts) : List Str :=
+  let hdr0 := o.header0.map (headerRow o)
+  if o.layout = .reverse then hdr0 else hdr0.reverse
+
+/-- The logical lines, counted from the prompt: prompt, info, --header (then --header-lines, list). -/
+def logical (o : ROpts) (v : View) : List Str := inputRows o v ++ hdr0Rows o
+
+/-- The fixed rows counted from the prompt edge (layouts reverse and default): input section,
+    --header, --header-lines — with --header-first the headers come first. -/
+def fixedBlock (o : ROpts) (v : View) : List Str :=
+  let hl := o.headerItems.map (headerRow o)
+  if o.headerFirst then hdr0Rows o ++ hl ++ inputRows o v else logical o v ++ hl
 
 def listRows (o : ROpts) (v : View) : List Str :=
   let shown := (v.rows.take (maxItems o)).map (itemRow o)
@@ -178,9 +191,9 @@ def listRows (o : ROpts) (v : View) : List Str :=
 def fullRender (o : ROpts) (v : View) : List Str :=
   let hl := o.headerItems.map (headerRow o)
   match o.layout with
-  | .reverse => ((logical o v ++ hl ++ listRows o v).take o.H)
-  | .default => ((logical o v ++ hl ++ listRows o v).take o.H).reverse
-  | .reverseList => (hl ++ listRows o v ++ (logical o v).reverse)
+  | .reverse => ((fixedBlock o v ++ listRows o v).take o.H)
+  | .default => ((fixedBlock o v ++ listRows o v).take o.H).reverse
+  | .reverseList => (hl ++ listRows o v ++ (if o.headerFirst then hdr0Rows o ++ inputRows o v else logical o v).reverse)
 
 /-! ### Incremental repaint of one list row (`printItem` with `prevLines`) -/
 
